@@ -326,6 +326,21 @@ pub fn drive_bezlen(args: &[String]) {
         one!(QuadraticBezier3, Vec3, 2, 3, [start, ctrl, end]);
         one!(CubicBezier2, Vec2, 3, 2, [start, ctrl0, ctrl1, end]);
         one!(CubicBezier3, Vec3, 3, 3, [start, ctrl0, ctrl1, end]);
+        // degree elevation on floats: a quadratic with NON-DYADIC coordinates (tenths) turned into a cubic by into_cubic();
+        // the cubic is the same curve, so its bounding box is the quadratic's (known in closed form), although its leading
+        // derivative coefficient is a rounding residue instead of 0.  Boxes are logged as round(coordinate * 10 * 1024).
+        {
+            let k: Vec<Vec<i64>> = (0..3).map(|_| (0..3).map(|_| d.rng.gen_range(-80..=80)).collect()).collect();
+            let sb = |x: f64| if x.is_finite() { (x * 10240.0).round() as i64 } else { 1 << 30 };
+            let p2 = |i: usize| Vec2::new(k[i][0] as f64 / 10.0, k[i][1] as f64 / 10.0);
+            let p3 = |i: usize| Vec3::new(k[i][0] as f64 / 10.0, k[i][1] as f64 / 10.0, k[i][2] as f64 / 10.0);
+            let q2 = QuadraticBezier2 { start: p2(0), ctrl: p2(1), end: p2(2) };
+            let q3 = QuadraticBezier3 { start: p3(0), ctrl: p3(1), end: p3(2) };
+            let k2: Vec<Vec<i64>> = k.iter().map(|r| r[..2].to_vec()).collect();
+            d.call("bez_elev_f", || json!({"ty": "CubicBezier2<f64>", "k": k2}), || { let b = q2.into_cubic().aabr(); json!({"min": [sb(b.min.x), sb(b.min.y)], "max": [sb(b.max.x), sb(b.max.y)]}) });
+            d.call("bez_elev_f", || json!({"ty": "QuadraticBezier2<f64>", "k": k2}), || { let b = q2.aabr(); json!({"min": [sb(b.min.x), sb(b.min.y)], "max": [sb(b.max.x), sb(b.max.y)]}) });
+            d.call("bez_elev_f", || json!({"ty": "CubicBezier3<f64>", "k": k}), || { let b = q3.into_cubic().aabb(); json!({"min": [sb(b.min.x), sb(b.min.y), sb(b.min.z)], "max": [sb(b.max.x), sb(b.max.y), sb(b.max.z)]}) });
+        }
     }
     d.finish(arg(args, "--summary"));
 }
